@@ -6,8 +6,9 @@
                       plus the C `#define UTF8_ACCEPT/UTF8_REJECT`
   Utf8UnrolledC.lean  `unrolledC : Nat -> Nat -> Nat`  from the `DFA_TRANSITION(state, octet)` macro (if-chain) of the C file
 
-The tables are emitted as `match`-based functions (one arm per cell, default arm = 999 "index out of range"), which
-the kernel evaluates quickly under `decide +kernel`.  Every translator raises `ShapeError` when the source no
+The tables are emitted as functions with one leaf per cell, shaped as a balanced decision tree on the index (a lookup is
+~9 comparisons for the kernel under `decide +kernel`; a flat 400-arm `match` on Nat literals was measured 10x slower);
+an index outside the table gives 999 ("IndexError").  Every translator raises `ShapeError` when the source no
 longer has the shape it reads (the check then reports the proof as broken and still runs the search).
 """
 import ast
